@@ -134,6 +134,10 @@ func (t *GoType) HasDirectMethod(name string) bool {
 func (t *GoType) GetConverter() (TypeConverter, error) {
 	goTypeMutex.Lock()
 	defer goTypeMutex.Unlock()
+	if verifOn {
+		verifSync("lock", "goTypeMutex")
+		defer verifSync("unlock", "goTypeMutex")
+	}
 
 	return t.getConverter()
 }
@@ -141,12 +145,18 @@ func (t *GoType) GetConverter() (TypeConverter, error) {
 // getConverter is GetConverter for callers that already hold goTypeMutex. It
 // reads and fills the converter field and the package-level converter registry.
 func (t *GoType) getConverter() (TypeConverter, error) {
+	if verifOn {
+		verifSync("read", "GoType.converter")
+	}
 	if t.converter != nil {
 		return t.converter, nil
 	}
 	conv, err := getTypeConverter(t.typ)
 	if err != nil {
 		return nil, err
+	}
+	if verifOn {
+		verifSync("write", "GoType.converter")
 	}
 	t.converter = conv
 	return conv, nil
@@ -170,6 +180,9 @@ func (t *GoType) MarshalJSON() ([]byte, error) {
 // This is NOT threadsafe. The caller must be holding goTypeMutex.
 func newGoType(typ reflect.Type) (_ *GoType, err error) {
 	// Return the existing type if it's already registered
+	if verifOn {
+		verifSync("read", "goTypeRegistry")
+	}
 	if goType, ok := goTypeRegistry[typ]; ok {
 		return goType, nil
 	}
@@ -207,6 +220,9 @@ func newGoType(typ reflect.Type) (_ *GoType, err error) {
 	}
 
 	// Add the new type to the registry before calling newGoType recursively
+	if verifOn {
+		verifSync("write", "goTypeRegistry")
+	}
 	goTypeRegistry[typ] = goType
 
 	// Do not leave a half-built type behind when a field or method cannot be
@@ -279,6 +295,10 @@ func newGoType(typ reflect.Type) (_ *GoType, err error) {
 func NewGoType(typ reflect.Type) (*GoType, error) {
 	goTypeMutex.Lock()
 	defer goTypeMutex.Unlock()
+	if verifOn {
+		verifSync("lock", "goTypeMutex")
+		defer verifSync("unlock", "goTypeMutex")
+	}
 
 	return newGoType(typ)
 }
